@@ -258,7 +258,7 @@ func c15RoundTrip(w *mon.W, id string, x poly.Sequence, origin, tmp string, viaF
 }
 
 func runC15(w *mon.W) {
-	n := w.Pick(15000, 200000)
+	n := w.Pick(15000, 600000)
 	tmp := filepath.Join(w.Dir, fmt.Sprintf("c15-%d", w.Shard))
 	os.MkdirAll(tmp, 0755)
 	defer os.RemoveAll(tmp)
